@@ -17,7 +17,8 @@ TARGETS = ["theories/Route/Props.vo", "theories/Route/Exec.vo",
            "theories/Route/Examples.vo", "theories/Route/DijkstraExec.vo",
            "theories/Route/DijkstraExamples.vo", "theories/Route/BlindedExec.vo",
            "theories/Route/BlindedExamples.vo"]
-HARNESS = ["routing/verif_route_test.go", "routing/verif_blinded_test.go"]
+HARNESS = ["routing/verif_route_test.go", "routing/verif_blinded_test.go",
+           "routing/verif_session_test.go"]
 WARM = [{"pkg": "routing", "files": HARNESS}]
 IMPORTS = ("From Coq Require Import List ZArith NArith.\nImport ListNotations.\n"
            "From LV Require Import Route.Model Route.Exec.\n")
@@ -39,7 +40,8 @@ SUBCHECK = {0: "route_valid rejects the returned route",
             10: "blinded: ToRouteHints differs from the model (policy fields incl. HasMaxHTLC, order, NUMS dummy)",
             11: "blinded: target / final CLTV delta of the path set differ from the model",
             12: "blinded: last-hop restriction not met by the search path",
-            13: "blinded: lastHopPayloadSize / real final-hop payload differ from the size model"}
+            13: "blinded: lastHopPayloadSize / real final-hop payload differ from the size model",
+            14: "hints: RouteHintsToEdges differs from the model's hint_edges (end node / channel / fee / delta / count / order)"}
 
 
 def subcheck_name(i):
@@ -113,9 +115,10 @@ def scase_term(c):
         res = "(Some %s)" % clist([edge_term(e) for e in c["path"]])
     else:
         res = "None"
+    sc = dict(c, finald=c["searchfinald"]) if c.get("searchfinald") else c
     return "SCase %s %s %s %s %s %s %s %s %s %s %s %s %s" % (
         clist([edge_term(e) for e in c["edges"]]), zlist(c.get("hintchans") or []),
-        env_term(c), restr_term(c), zt(c["amt"]), zt(c["src"]), zt(c["dst"]),
+        env_term(sc), restr_term(c), zt(c["amt"]), zt(c["src"]), zt(c["dst"]),
         zt(c["lastsize"]), zt(c["attempt"]), zt(c["minprobbits"]),
         triples(c.get("bsizes") or []), clist(evs), res)
 
@@ -163,6 +166,78 @@ def bcase_term(c):
         zlist(c["hopfees"]), zt(c["totfees"]), zt(c["recv"]),
         zt(enc_est), zt(enc_real), zt(c["total"]), zt(c.get("customlen", -1)),
         cbool(bool(c.get("session"))))
+
+
+def hints_term(c):
+    """Session row: user-level hop hints and the edges lnd derived (BlindedExec.CHints)."""
+    hs = clist([clist(["HH %s %s %s %s %s" % (zt(h["node"]), zt(h["chan"]), zt(h["base"]),
+                                               zt(h["rate"]), zt(h["delta"])) for h in rh])
+                for rh in (c.get("userhints") or [])])
+    return "CHints %s %s %s" % (zt(c["dst"]), hs, clist([edge_term(e) for e in c.get("obsadd") or []]))
+
+
+def session_predicate(c):
+    """Payment-level predicate from the USER-LEVEL inputs of a payment with
+    BOLT11 route hints (the hop hints as given), never from the edges lnd
+    derived: every derived additional edge is the hint's channel from the
+    hint's node to the next hint's node (the target for the last one) with the
+    hint's fee and delta; and every hop of the returned route that travels over
+    a hinted channel id leaves the hint's node, arrives at the hint's end node
+    and the node in front of it is left the hint's fee and CLTV delta."""
+    bad = []
+    if c.get("sessbad"):
+        bad.append(c.get("err") or "session handed findPath unexpected arguments")
+    want = []
+    for rh in c.get("userhints") or []:
+        for i, h in enumerate(rh):
+            to = rh[i + 1]["node"] if i + 1 < len(rh) else c["dst"]
+            want.append(dict(h, to=to))
+    obs = c.get("obsadd") or []
+    if c.get("nobsadd", 0) != len(want) or len(obs) != len(want):
+        bad.append("%d hop hints given, %d additional edges derived" % (len(want), c.get("nobsadd", 0)))
+    for w, o in zip(want, obs):
+        if (o["chan"], o["from"], o["to"], o["base"], o["rate"], o["delta"]) != \
+                (w["chan"], w["node"], w["to"], w["base"], w["rate"], w["delta"]) or \
+                o["dis"] or o["min"] or o["hasmax"]:
+            bad.append("hop hint chan %d %d->%d fee %d/%d delta %d became edge chan %d %d->%d fee %d/%d delta %d"
+                       % (w["chan"], w["node"], w["to"], w["base"], w["rate"], w["delta"],
+                          o["chan"], o["from"], o["to"], o["base"], o["rate"], o["delta"]))
+    if c["kind"] != "route":
+        return bad
+    byid = {}
+    for w in want:
+        byid.setdefault(w["chan"], []).append(w)
+    edges = {(e["chan"], e["from"], e["to"]): e for e in c["edges"]}
+    prev = c["src"]
+    hops = c["hops"]
+    carried = [c["totalamt"]] + [h["amt"] for h in hops[:-1]]
+    expiry = [c["totaltl"]] + [h["tl"] for h in hops[:-1]]
+    for i, h in enumerate(hops):
+        ws = byid.get(h["chan"])
+        if ws:
+            m = [w for w in ws if w["node"] == prev and w["to"] == h["to"]]
+            if not m:
+                bad.append("hop %d travels over hinted channel %d from node %d to node %d, the hint says %s"
+                           % (i, h["chan"], prev, h["to"],
+                              ", ".join("%d->%d" % (w["node"], w["to"]) for w in ws)))
+            elif i > 0:
+                w = m[0]
+                fwd = hops[i - 1]["amt"]
+                fee = w["base"] + fwd * w["rate"] // 1000000
+                # the node may net an inbound fee of the channel the payment
+                # arrives on (public channels only), floored at zero
+                pp = c["src"] if i == 1 else hops[i - 2]["to"]
+                ein = edges.get((hops[i - 1]["chan"], pp, prev))
+                if ein is not None and not ein.get("hint"):
+                    fee = max(0, fee + in_fee(ein, fwd + fee))
+                if carried[i - 1] - fwd < fee:
+                    bad.append("node %d is left %d for hinted channel %d, the hint demands %d"
+                               % (prev, carried[i - 1] - fwd, h["chan"], fee))
+                if expiry[i - 1] - hops[i - 1]["tl"] < w["delta"]:
+                    bad.append("node %d gets expiry gap %d for hinted channel %d, the hint demands %d"
+                               % (prev, expiry[i - 1] - hops[i - 1]["tl"], h["chan"], w["delta"]))
+        prev = h["to"]
+    return bad
 
 
 def blinded_search_view(c):
@@ -519,7 +594,21 @@ def blinded_predicate(c):
             cl = c["customlen"]
             missing += 5 + (1 if cl < 253 else 3) + cl
         short = c["sizes"][-1] - c["lastsize"]
-        if (c["sphinxok"] and not c.get("session") and est <= MAX_PAYLOAD and others_ok
+        encl = max(2, p["ctlens"][-1])
+        # through the real payment session the final hop is sized as a
+        # cleartext hop: additionally short by the encrypted data record and,
+        # for an introduction-node-only path, the blinding point
+        sess_missing = (2 + max(1, (tot.bit_length() + 7) // 8)) + \
+            (1 + (1 if encl < 253 else 3) + encl) + (35 if single else 0)
+        if (c["sphinxok"] and c.get("session") and est <= MAX_PAYLOAD and others_ok
+                and sess_missing <= short <= sess_missing + 2):
+            add("C19 blinded:session-final-hop-sized-as-cleartext",
+                "onion payload %d bytes does not fit %d: RequestRoute keeps the blinded path set out of "
+                "RestrictParams, findPath sized the final hop as cleartext (%d bytes, real %d: encrypted "
+                "data %d bytes%s, total_amount_msat); its own total %d fits"
+                % (sum(c["sizes"]), MAX_PAYLOAD, c["lastsize"], c["sizes"][-1], encl,
+                   ", blinding point" if single else "", est))
+        elif (c["sphinxok"] and not c.get("session") and est <= MAX_PAYLOAD and others_ok
                 and missing <= short <= missing + 2):
             add("C19 blinded:onion-payload-exceeds-1300",
                 "onion payload %d bytes does not fit %d: findPath's estimate of the final hop is %d, "
@@ -694,7 +783,7 @@ def run(ctx):
         case = (rp.get("detail") or {}).get("case") or {}
         env["VERIF_SEED"] = str(rp.get("seed", ctx.seed))
         stream = case.get("stream") or ""
-        if stream in ("hint", "blinded", "directed"):
+        if stream in ("hint", "blinded", "directed", "session"):
             env["VERIF_ONLY_" + stream[0].upper()] = str(case.get("case", 0))
         elif case.get("kind") == "getedge":
             env["VERIF_ONLY_GE"] = str(case.get("case", 0))
@@ -741,6 +830,18 @@ def run(ctx):
                        "violated_clauses": [t for kk, t in blinded_predicate(c) if kk == k],
                        "rows_with_this_class": bfail[k]},
                       signature=sig + (" [%s]" % c["variant"] if k.startswith("C19 blinded:") else ""))
+    # (3d) payments driven through the real payment session with BOLT11 hop
+    # hints: judged from the user-level hints
+    srows = [c for c in rows if c.get("stream") == "session"]
+    nsessfail = 0
+    for c in srows:
+        f = session_predicate(c)
+        if f:
+            nsessfail += 1
+            if nsessfail <= 3:
+                ctx.violation("impl_violates_predicate", "C19_checker_sound",
+                              {"case": c, "violated_clauses": f},
+                              signature="session %s: %s" % (c["variant"], f[0][:70]))
     nvfail = 0
     for c in brows:
         f = validate_predicate(c)
@@ -776,7 +877,9 @@ def run(ctx):
     from concurrent.futures import ThreadPoolExecutor
     bchecked = [c for c in brows if c.get("edges") is not None and c.get("dst", -1) >= 0
                 and not (c.get("err") or "").startswith(("validate", "pathset", "hints"))]
-    bterms = [bcase_term(c) for c in bchecked]
+    hchecked = [c for c in srows if c.get("userhints")]
+    bchecked = bchecked + hchecked
+    bterms = [hints_term(c) if c.get("stream") == "session" else bcase_term(c) for c in bchecked]
     with ThreadPoolExecutor(max_workers=3) as ex:
         f1 = ex.submit(coq_mismatches, ctx.uid(), IMPORTS, terms, scope="Z_scope",
                        shard=max(40, len(terms) // NCPU + 1))
@@ -847,6 +950,15 @@ def run(ctx):
         "routes_returned": len(routes),
         "traces_validated_against_impl": len(checked),
         "predicate_failures": nfail,
+        "session_rows": len(srows),
+        "session_routes": sum(1 for c in srows if c["kind"] == "route"),
+        "session_routes_by_hinted_hops": {str(k): v for k, v in sorted(__import__("collections").Counter(
+            sum(1 for h in c["hops"] if h["chan"] in set(c.get("hintchans") or []))
+            for c in srows if c["kind"] == "route").items())},
+        "session_route_hints_per_payment": {str(k): v for k, v in sorted(__import__("collections").Counter(
+            len(c.get("userhints") or []) for c in srows).items())},
+        "session_predicate_failures": nsessfail,
+        "session_hint_conversions_checked_against_model": len(hchecked),
         "blinded_routes": len(broutes),
         "blinded_rows_checked_against_model": len(bchecked),
         "blinded_predicate_classes": dict(bfail),
